@@ -118,6 +118,13 @@ func c06Cases() []c06Case {
 		c06Case{"slot-velse-not-reached", map[string]string{"p.vuego": `<template include="c.vuego"><b>S</b></template>`, "c.vuego": `<div>[<i v-if="n">y</i><slot v-else>FB</slot>]</div>`}, d, "[y]"},
 		c06Case{"named-slot-velseif-supplied", map[string]string{"p.vuego": `<template include="c.vuego"><template #x>X-{{ name }}</template><b>D</b></template>`, "c.vuego": `<div>[<i v-if="nope">n</i><slot v-else-if="n" name="x">FBX</slot><u v-else>E</u>|<slot>FB</slot>]</div>`}, d, "[X-NAME|D]"},
 		c06Case{"named-slot-velseif-false", map[string]string{"p.vuego": `<template include="c.vuego"><template #x>X-{{ name }}</template><b>D</b></template>`, "c.vuego": `<div>[<i v-if="nope">n</i><slot v-else-if="nope" name="x">FBX</slot><u v-else>E</u>|<slot>FB</slot>]</div>`}, d, "[E|D]"},
+		// the DECLARED NAME of a scoped slot is bound at every use, also when the slot binds nothing (or only null values) at that use: it names the
+		// empty props object and hides a same-named variable of the page or of an enclosing scoped slot
+		c06Case{"declared-name-no-props-hides-page-var", map[string]string{"p.vuego": `<template include="c.vuego"><template #foot="row">({{ row.meta }})</template></template>`, "c.vuego": `<div><slot name="foot">FB</slot></div>`}, map[string]any{"row": map[string]any{"meta": "PAGE"}}, "()"},
+		c06Case{"declared-name-null-props-in-loop", map[string]string{"p.vuego": `<template include="c.vuego"><template #cell="row">({{ row.meta }})</template></template>`, "c.vuego": `<ul><li v-for="r in rows"><slot name="cell" :meta="r.meta">FB</slot></li></ul>`},
+			map[string]any{"row": map[string]any{"meta": "PAGE"}, "rows": []any{map[string]any{"meta": "m1"}, map[string]any{"meta": nil}, map[string]any{"meta": "m3"}}}, "(m1)()(m3)"},
+		c06Case{"declared-name-nested-same-name", map[string]string{"p.vuego": `<template include="list.vuego"><template v-slot="sp"><template include="card.vuego">{{ sp.item }}<template #footer="sp">[footer:{{ sp.item }}]</template></template></template></template>`,
+			"list.vuego": `<ul><li v-for="it in items"><slot :item="it">FB</slot></li></ul>`, "card.vuego": `<div><slot>FB</slot><footer><slot name="footer">FF</slot></footer></div>`}, map[string]any{"items": []any{"Apple", "Banana"}}, "Apple[footer:]Banana[footer:]"},
 		c06Case{"scoped-slot-vif-in-loop", map[string]string{"p.vuego": `<template include="c.vuego"><template #row="p">({{ p.item }})</template></template>`, "c.vuego": `<ul><li v-for="it in items"><slot v-if="it != 'b'" name="row" :item="it">FB</slot><u v-else>skip</u></li></ul>`}, map[string]any{"items": []any{"a", "b", "c"}}, "(a)skip(c)"},
 		c06Case{"slot-velse-after-empty-loop", map[string]string{"p.vuego": `<template include="c.vuego"><b>S</b></template>`, "c.vuego": `<div>[<i v-for="q in nothing">q</i><slot v-else>FB</slot>]</div>`}, d, "[S]"},
 		// content a page hands to its layout, used by the layout itself: evaluated with the layout-visible data; a <slot> inside it finds nothing
